@@ -91,6 +91,20 @@ def variant_source(kind, source):
                 if n.orelse and not (len(n.orelse) == 1 and isinstance(n.orelse[0], ast.If)):
                     n.orelse.insert(0, dbg())
         return ast.unparse(ast.fix_missing_locations(tree))
+    if kind == "cmpflip":
+        # a < b  ->  b > a   (single-operator comparisons; same truth value)
+        flip = {ast.Lt: ast.Gt, ast.Gt: ast.Lt, ast.LtE: ast.GtE, ast.GtE: ast.LtE}
+        for n in ast.walk(tree):
+            if isinstance(n, ast.Compare) and len(n.ops) == 1 and type(n.ops[0]) in flip:
+                n.left, n.comparators, n.ops = n.comparators[0], [n.left], [flip[type(n.ops[0])]()]
+        return ast.unparse(ast.fix_missing_locations(tree))
+    if kind == "ifswap":
+        # if c: A else: B  ->  if not c: B else: A   (two-armed ifs without elif)
+        for n in ast.walk(tree):
+            if isinstance(n, ast.If) and n.orelse and not (len(n.orelse) == 1 and isinstance(n.orelse[0], ast.If)):
+                n.test = ast.UnaryOp(op=ast.Not(), operand=n.test)
+                n.body, n.orelse = n.orelse, n.body
+        return ast.unparse(ast.fix_missing_locations(tree))
     if kind == "numpy":
         has = any(isinstance(n, ast.Import) and any(a.name == "numpy" and a.asname == "np" for a in n.names) for n in ast.walk(tree))
         if not has:
